@@ -8,12 +8,23 @@
 //!   golden          the crate's own 20 hyphenation + 3 explanation goldens (TeX-verified) against the
 //!                   MODEL and the implementation: calibrates the model and the index convention.
 //!   liang           generated alphabet × pattern set × exception list × load order × word.
-//!   nonletter_words same generator, one non-letter injected into the word (weak two-reading oracle).
+//!   nonletter_words same generator, one non-letter injected into the word. EXPLORATION ONLY (the property
+//!                   quantifies over words of letters): the behaviour is classified, never judged.
 //!   plain_words     pseudo-English words against plain TeX's 4447 patterns + 14 exceptions.
+//!   big_tables      same generator and oracle as `liang`, 100-400 patterns and 20-80 exceptions per case.
+//!   plain_overlay   plain TeX's tables + 5-30 generated patterns over a-z (digits up to 9, long patterns)
+//!                   + 50-400 exceptions, pseudo-English word; same oracle.
 //!   pool_pairs      exhaustive: every pair (thorough: triple) of a fixed 40-pattern pool × every word
 //!                   of length ≤ 6 (thorough ≤ 7) over {a,b,c}.
 //!   pool_exceptions exhaustive: every pool pattern × every hyphenated exception of length ≤ 3 × both
 //!                   load orders × every word of length ≤ 4.
+//!   primitives      (LAST, because it reports the open defects of the anchored file) the TeX primitives
+//!                   `\patterns` / `\hyphenation` of texlang-texttransform run in a VM on a generated case;
+//!                   the component's hyphenator is then queried and compared with the same model.
+//!
+//! Every letters-only case additionally checks `hypthenate()` (the text API every real caller uses),
+//! the aggregate scores of `calculate_explanation` (the max digit itself, not only its parity) and -
+//! when the case carries a `requery` - the answers of ONE instance before and after further loads.
 
 use crate::engine::*;
 use crate::models::liang::{self, Deviations, Lexicon, Pattern, FLAG_COMPETES, FLAG_REPLACED};
@@ -32,6 +43,9 @@ pub enum Load {
     Exception(String),
     /// argument of one `insert_exceptions` call (one exception per line)
     Exceptions(String),
+    /// plain TeX's tables, loaded the way `Hyphenator::plain_tex_en_us` does it:
+    /// `load_patterns(plain_tex_patterns.txt)` then `insert_exceptions(plain_tex_exceptions.txt)`
+    PlainTex,
 }
 
 #[derive(Debug, Clone, Serialize, Deserialize, PartialEq, Eq)]
@@ -42,6 +56,11 @@ pub struct HCase {
     /// calls made on a fresh `Hyphenator::default()`, in order
     pub loads: Vec<Load>,
     pub word: String,
+    /// query -> load more -> query again on ONE instance: after the first `.0` loads (clamped to the
+    /// number of loads) `word` and the second word `.1` are queried and judged against the model of
+    /// that prefix; then the remaining loads are applied to the same instance and both are queried again.
+    #[serde(default)]
+    pub requery: Option<(usize, String)>,
 }
 
 struct MapLower<'a>(&'a [(char, char)]);
@@ -57,16 +76,16 @@ impl hyphenate::LowerCaser for MapLower<'_> {
     }
 }
 
-fn build_impl(loads: &[Load]) -> hyphenate::Hyphenator {
-    let mut h = hyphenate::Hyphenator::default();
-    for l in loads {
-        match l {
-            Load::Patterns(t) => h.load_patterns(t),
-            Load::Exception(t) => h.insert_exception(t),
-            Load::Exceptions(t) => h.insert_exceptions(t),
+fn apply_load(h: &mut hyphenate::Hyphenator, l: &Load) {
+    match l {
+        Load::Patterns(t) => h.load_patterns(t),
+        Load::Exception(t) => h.insert_exception(t),
+        Load::Exceptions(t) => h.insert_exceptions(t),
+        Load::PlainTex => {
+            h.load_patterns(PLAIN_PATTERNS);
+            h.insert_exceptions(PLAIN_EXCEPTIONS);
         }
     }
-    h
 }
 
 /// `lines_only` = deviation `insert_exceptions_splits_lines_only` (the documented separator of
@@ -88,6 +107,7 @@ fn build_model(loads: &[Load], lines_only: bool) -> Result<Lexicon, String> {
                     }
                 }
             }
+            Load::PlainTex => lex.entries.extend(plain_model().entries.iter().cloned()),
         }
     }
     Ok(lex)
@@ -107,9 +127,13 @@ fn render_case(c: &HCase) -> String {
             Load::Patterns(t) => s.push_str(&format!("\\patterns{{{}}} ", t.split_whitespace().collect::<Vec<_>>().join(" "))),
             Load::Exception(t) => s.push_str(&format!("\\hyphenation{{{t}}} ")),
             Load::Exceptions(t) => s.push_str(&format!("\\hyphenation{{{}}} ", t.split_whitespace().collect::<Vec<_>>().join(" "))),
+            Load::PlainTex => s.push_str("\\input hyphen "),
         }
     }
     s.push_str(&format!("| word={}", c.word));
+    if let Some((k, other)) = &c.requery {
+        s.push_str(&format!(" | also queried after the first {} loads; second word={}", (*k).min(c.loads.len()), other));
+    }
     s
 }
 
@@ -143,25 +167,143 @@ fn zero_run_16(p: &Pattern) -> bool {
     false
 }
 
+/// The pattern tokens of the case in load order (parallel to `Lexicon::patterns()`).
+fn pattern_tokens(loads: &[Load]) -> Vec<&str> {
+    let mut v = vec![];
+    for l in loads {
+        match l {
+            Load::Patterns(t) => v.extend(t.split_whitespace()),
+            Load::PlainTex => v.extend(PLAIN_PATTERNS.split_whitespace()),
+            _ => {}
+        }
+    }
+    v
+}
+
+/// A literal `0` written after at least 15 letters that carry no digit (the zero-run filler 0xF0 of the
+/// packed op stream and the explicit zero op meet here).
+fn explicit_zero_after_15_letters(tok: &str) -> bool {
+    let mut run = 0;
+    for c in tok.chars() {
+        if c.is_ascii_digit() {
+            if c == '0' && run >= 15 {
+                return true;
+            }
+            run = 0;
+        } else if c != '.' {
+            run += 1;
+        }
+    }
+    false
+}
+
+/// Same as `Lexicon::has_duplicate_pattern_keys` (TeX: "Duplicate pattern"), without the quadratic scan
+/// (membership tests only, so the hash order does not matter).
+fn has_duplicate_keys(lex: &Lexicon) -> bool {
+    let mut seen: std::collections::HashSet<(bool, bool, &[char])> = std::collections::HashSet::new();
+    lex.patterns().into_iter().any(|p| !seen.insert((p.start, p.end, &p.letters[..])))
+}
+
+/// If the listed deviation flags (smallest subsets first) make the deviating model reproduce `got`
+/// exactly for the loads `loads` and the lower-cased word `w`: the signature to report.
+fn known_deviation(ctx: &Ctx, loads: &[Load], w: &[char], got: &[usize]) -> Option<String> {
+    let listed: Vec<&str> = [FLAG_COMPETES, FLAG_REPLACED, FLAG_LINES].into_iter().filter(|f| ctx.known(f)).collect();
+    let mut subsets: Vec<u32> = (1..(1u32 << listed.len())).collect();
+    subsets.sort_by_key(|m| (m.count_ones(), *m));
+    for m in subsets {
+        let on: Vec<&str> = listed.iter().enumerate().filter(|(i, _)| m & (1 << i) != 0).map(|(_, f)| *f).collect();
+        let d = Deviations {
+            exception_competes_as_6_7_pattern: on.contains(&FLAG_COMPETES),
+            exception_replaced_by_later_full_word_pattern: on.contains(&FLAG_REPLACED),
+        };
+        let Ok(lex2) = build_model(loads, on.contains(&FLAG_LINES)) else { continue };
+        if lex2.positions_with(w, d) == got {
+            return Some(on.join("+"));
+        }
+    }
+    None
+}
+
+/// Lower-cased letters of `word`, or `None` if it contains a non-letter.
+fn lower_letters(lower: &MapLower, word: &str) -> Option<Vec<char>> {
+    word.chars().map(|ch| hyphenate::LowerCaser::to_lower_case(lower, ch)).collect()
+}
+
 fn oracle(ctx: &Ctx, c: &HCase, case: &mut Case, allow_nonletter: bool) -> Verdict {
     let lex = match build_model(&c.loads, false) {
         Ok(l) => l,
         Err(_) => return Verdict::Skip("malformed pattern (outside the domain)"),
     };
-    if lex.has_duplicate_pattern_keys() {
+    if has_duplicate_keys(&lex) {
         return Verdict::Skip("duplicate pattern key (TeX: Duplicate pattern error)");
     }
     let lower = MapLower(&c.letters);
     let chars: Vec<char> = c.word.chars().collect();
     let lowered: Vec<Option<char>> = chars.iter().map(|&ch| hyphenate::LowerCaser::to_lower_case(&lower, ch)).collect();
-    let h = build_impl(&c.loads);
-    let got: Vec<usize> = h.calculate_indices(&lower, &c.word).collect();
-    if let Some(k) = lowered.iter().position(|x| x.is_none()) {
+    let nonletter_at = lowered.iter().position(|x| x.is_none());
+
+    // ---- the instance: loaded in one go, or queried once in between (query -> load -> query) -----
+    let mut h = hyphenate::Hyphenator::default();
+    let mut first_answer: Option<Vec<usize>> = None;
+    let mut split_at = 0usize;
+    let mut lex_first: Option<Lexicon> = None;
+    match (&c.requery, nonletter_at) {
+        (Some((k, other)), None) => {
+            let k = (*k).min(c.loads.len());
+            split_at = k;
+            for l in &c.loads[..k] {
+                apply_load(&mut h, l);
+            }
+            let Ok(lexk) = build_model(&c.loads[..k], false) else { return Verdict::Skip("malformed pattern (outside the domain)") };
+            for q in [&c.word, other] {
+                let Some(qw) = lower_letters(&lower, q) else { continue };
+                if qw.is_empty() {
+                    continue;
+                }
+                let gotk: Vec<usize> = h.calculate_indices(&lower, q).collect();
+                let expk = lexk.positions(&qw);
+                if gotk != expk {
+                    if let Some(sig) = known_deviation(ctx, &c.loads[..k], &qw, &gotk) {
+                        return Verdict::Known(sig);
+                    }
+                    return Verdict::Fail(format!(
+                        "first query (after {k} of {} loads) differs from Liang's definition for the loads made so far\n{}\nqueried word: {q}\nexpected positions {expk:?}\ngot      positions {gotk:?}",
+                        c.loads.len(),
+                        render_case(c)
+                    ));
+                }
+                if std::ptr::eq(q, &c.word) {
+                    first_answer = Some(gotk);
+                }
+            }
+            lex_first = Some(lexk);
+            for l in &c.loads[k..] {
+                apply_load(&mut h, l);
+            }
+        }
+        _ => {
+            for l in &c.loads {
+                apply_load(&mut h, l);
+            }
+        }
+    }
+    if let Some(k) = nonletter_at {
         if !allow_nonletter {
             return Verdict::Skip("word contains a non-letter");
         }
-        return nonletter_oracle(&lex, &lowered, k, &got, c, case);
+        return match crate::engine::panics::catch(|| h.calculate_indices(&lower, &c.word).collect::<Vec<usize>>()) {
+            Ok(got) => nonletter_explore(&lex, &lowered, k, &got, c, case),
+            Err(info) => {
+                case.class("nonletter word");
+                case.class("nonletter: PANIC (not judged)");
+                if case.replay {
+                    case.note = Some(format!("{} => panic at {}: {}", render_case(c), info.site(), info.message));
+                }
+                Verdict::pass(false)
+            }
+        };
     }
+    let got: Vec<usize> = h.calculate_indices(&lower, &c.word).collect();
     let w: Vec<char> = lowered.iter().map(|x| x.unwrap()).collect();
     let n = w.len();
     if n == 0 {
@@ -170,6 +312,7 @@ fn oracle(ctx: &Ctx, c: &HCase, case: &mut Case, allow_nonletter: bool) -> Verdi
     let expected = lex.positions(&w);
     let a = lex.analyse(&w);
     let pats = lex.patterns();
+    let toks = pattern_tokens(&c.loads);
 
     // ---- classes -------------------------------------------------------------------------
     case.class(match n {
@@ -183,19 +326,40 @@ fn oracle(ctx: &Ctx, c: &HCase, case: &mut Case, allow_nonletter: bool) -> Verdi
         0 => "patterns=0",
         1..=5 => "patterns=1..5",
         6..=15 => "patterns=6..15",
-        _ => "patterns>=16",
+        16..=99 => "patterns=16..99",
+        100..=199 => "patterns=100..199",
+        200..=999 => "patterns=200..999",
+        _ => "patterns>=1000",
     });
     let upper = chars.iter().zip(&w).filter(|(a, b)| a != b).count();
     case.class_if(upper > 0 && upper < n, "word mixed case");
     case.class_if(upper == n, "word all upper");
     case.class_if(c.word.len() != n, "multibyte letter in word");
     case.class_if(c.letters.iter().any(|(lo, up)| !up.to_lowercase().eq(std::iter::once(*lo))), "non-standard upper pairing");
+    // alphabet shapes
+    let used = |f: &dyn Fn(char, char) -> bool| chars.iter().zip(&w).any(|(&orig, &lo)| f(orig, lo));
+    case.class_if(used(&|o, l| o.len_utf8() != l.len_utf8()), "word has a letter whose lower case has another UTF-8 length");
+    case.class_if(used(&|o, l| o.len_utf8() > l.len_utf8()), "word has a letter longer than its lower case");
+    case.class_if(used(&|o, l| o.len_utf8() < l.len_utf8()), "word has a letter shorter than its lower case");
+    case.class_if(used(&|o, _| o.len_utf8() == 3), "word has a 3-byte letter");
+    case.class_if(used(&|o, _| o.len_utf8() == 4), "word has a 4-byte letter");
+    case.class_if(used(&|o, _| o == '\'' || o == '\u{2019}'), "word has an apostrophe letter");
+    case.class_if(c.letters.iter().any(|&(lo, up)| lo == up && chars.contains(&lo)), "word has an uncased letter");
+    case.class_if(n >= 2 && chars[..n - 1].iter().any(|ch| ch.len_utf8() > 1), "multibyte letter not in last position");
+    case.class_if(expected.iter().any(|&p| chars[..p].iter().any(|ch| ch.len_utf8() > 1)), "hyphen after a multibyte letter");
+    case.class_if(
+        expected.iter().any(|&p| chars[..p].iter().zip(&w[..p]).any(|(o, l)| o.len_utf8() != l.len_utf8())),
+        "hyphen after a letter whose lower case has another UTF-8 length",
+    );
     let interior = |p: usize| p >= 1 && p + 1 <= n;
     let mut m_start = false;
     let mut m_end = false;
     let mut m_both = false;
     let mut m_hi = false;
     let mut m_zero_run = false;
+    let mut m_zero_run_explicit = false;
+    let mut m_zero15 = false;
+    let mut m_explicit = false;
     let mut m_digit_pos0 = false;
     let mut m_digit_posn = false;
     let mut interior_nonzero = false;
@@ -204,7 +368,12 @@ fn oracle(ctx: &Ctx, c: &HCase, case: &mut Case, allow_nonletter: bool) -> Verdi
         m_start |= p.start && !p.end;
         m_end |= p.end && !p.start;
         m_both |= p.start && p.end;
-        m_zero_run |= zero_run_16(p);
+        let zr = zero_run_16(p);
+        let ex0 = toks.get(pi).is_some_and(|t| t.contains('0'));
+        m_zero_run |= zr;
+        m_explicit |= ex0;
+        m_zero_run_explicit |= zr && ex0;
+        m_zero15 |= toks.get(pi).is_some_and(|t| explicit_zero_after_15_letters(t));
         m_digit_pos0 |= o == 0 && p.digits[0] != 0;
         m_digit_posn |= o + p.letters.len() == n && *p.digits.last().unwrap() != 0;
         for (i, &d) in p.digits.iter().enumerate() {
@@ -219,6 +388,9 @@ fn oracle(ctx: &Ctx, c: &HCase, case: &mut Case, allow_nonletter: bool) -> Verdi
     case.class_if(m_both, "matched .x. pattern");
     case.class_if(m_hi, "matched digit 7..9 (interior)");
     case.class_if(m_zero_run, "matched pattern with zero run >=16");
+    case.class_if(m_explicit, "matched pattern with an explicit 0");
+    case.class_if(m_zero_run_explicit, "matched pattern with explicit 0 and zero run >=16");
+    case.class_if(m_zero15, "matched pattern with explicit 0 after >=15 digitless letters");
     case.class_if(m_digit_pos0, "matched digit before first letter");
     case.class_if(m_digit_posn, "matched digit after last letter");
     case.class_if(a.longest_matched_pattern > 16, "matched pattern >16 letters");
@@ -239,11 +411,38 @@ fn oracle(ctx: &Ctx, c: &HCase, case: &mut Case, allow_nonletter: bool) -> Verdi
     case.class_if(blocked, "anchor blocks a mid-word occurrence");
     case.class_if((1..n).any(|p| a.parity_conflict[p]), "odd and even digit at one position");
     case.class_if(!expected.is_empty(), "has a hyphen");
-    case.class_if(c.loads.iter().any(|l| matches!(l, Load::Patterns(t) if t.contains('0'))), "explicit 0 digit in a pattern");
+    case.class_if(toks.iter().any(|t| t.contains('0')), "explicit 0 digit in a pattern");
     case.class_if(c.loads.iter().any(|l| matches!(l, Load::Exceptions(t) if t.split_whitespace().count() > 1 && !t.contains('\n'))), "insert_exceptions with blank/tab separated words");
     case.class_if(c.loads.iter().any(|l| matches!(l, Load::Exceptions(t) if t.contains('\n'))), "insert_exceptions with lines");
     case.class_if(c.loads.iter().any(|l| matches!(l, Load::Exception(_))), "insert_exception");
     case.class_if(c.loads.iter().filter(|l| matches!(l, Load::Patterns(_))).count() > 1, "several load_patterns calls");
+    // text syntax inside the documented format (whitespace separated)
+    let text_of = |l: &Load| -> (bool, String) {
+        match l {
+            Load::Patterns(t) => (true, t.clone()),
+            Load::Exception(t) => (false, t.clone()),
+            Load::Exceptions(t) => (false, t.clone()),
+            Load::PlainTex => (true, "plain".to_string()),
+        }
+    };
+    case.class_if(c.loads.iter().any(|l| matches!(l, Load::Patterns(t) if t.contains('\t'))), "load_patterns text with a tab");
+    case.class_if(c.loads.iter().any(|l| matches!(l, Load::Patterns(t) if t.contains("\r\n"))), "load_patterns text with CRLF");
+    case.class_if(c.loads.iter().any(|l| matches!(l, Load::Patterns(t) if t.contains("\n\n"))), "load_patterns text with an empty line");
+    case.class_if(
+        c.loads.iter().any(|l| matches!(l, Load::Patterns(t) if !t.is_empty() && (t.starts_with(char::is_whitespace) || t.ends_with(char::is_whitespace)) && t.split_whitespace().next().is_some())),
+        "load_patterns text with leading/trailing whitespace",
+    );
+    case.class_if(c.loads.iter().any(|l| matches!(l, Load::Exceptions(t) if t.contains("\r\n"))), "insert_exceptions text with CRLF");
+    case.class_if(c.loads.iter().any(|l| !matches!(l, Load::Exception(_)) && text_of(l).1.split_whitespace().next().is_none()), "load call with no word in it");
+    case.class_if(c.loads.iter().any(|l| !text_of(l).0 && text_of(l).1.contains("--")), "exception with a doubled hyphen");
+    let n_exc = lex.entries.iter().filter(|e| matches!(e, liang::Entry::Exception(_))).count();
+    case.class(match n_exc {
+        0 => "exceptions=0",
+        1..=5 => "exceptions=1..5",
+        6..=19 => "exceptions=6..19",
+        20..=49 => "exceptions=20..49",
+        _ => "exceptions>=50",
+    });
     let is_exc = a.exception.is_some();
     case.class_if(is_exc, "word is an exception");
     if let Some(ie) = a.exception {
@@ -257,6 +456,15 @@ fn oracle(ctx: &Ctx, c: &HCase, case: &mut Case, allow_nonletter: bool) -> Verdi
         let dup = lex.entries[..ie].iter().any(|e| matches!(e, liang::Entry::Exception(x) if x.letters == w));
         case.class_if(dup, "word listed twice as exception");
     }
+    if let (Some(first), Some(lexk)) = (&first_answer, &lex_first) {
+        case.class("requery: queried before the last load");
+        case.class_if(split_at > 0 && split_at < c.loads.len(), "requery: first query between two loads");
+        case.class_if(*first != expected, "requery: later loads change the answer for the word");
+        let ak = lexk.analyse(&w).exception;
+        case.class_if(ak.is_none() && is_exc, "requery: word becomes an exception after the first query");
+        case.class_if(ak.is_some() && ak != a.exception, "requery: exception for the word is replaced after the first query");
+        case.class_if(ak.is_none() && !is_exc && *first != expected, "requery: later patterns change the answer");
+    }
     let compete = !is_exc && (1..n).any(|p| a.nonzero_contributions[p] >= 2);
     let exc_and_pattern = is_exc && interior_nonzero;
     let long = !is_exc && a.longest_matched_pattern > 16;
@@ -268,53 +476,84 @@ fn oracle(ctx: &Ctx, c: &HCase, case: &mut Case, allow_nonletter: bool) -> Verdi
         case.note = Some(format!("{} => {} (digits {:?})", render_case(c), hyphenated(&chars, &expected), a.digits));
     }
 
-    if got == expected {
-        return Verdict::pass(nontrivial);
+    if got != expected {
+        // ---- known deviations (only the listed ones, smallest subsets first) -----------------
+        if let Some(sig) = known_deviation(ctx, &c.loads, &w, &got) {
+            return Verdict::Known(sig);
+        }
+        return Verdict::Fail(format!(
+            "hyphen positions differ from Liang's definition\n{}\nlower-cased word: {}\nmax digits per position 0..=n (patterns only): {:?}\nword is an exception: {}\nexpected positions {:?} = {}\ngot      positions {:?} = {}",
+            render_case(c),
+            w.iter().collect::<String>(),
+            a.digits,
+            is_exc,
+            expected,
+            hyphenated(&chars, &expected),
+            got,
+            hyphenated(&chars, &got),
+        ));
     }
-    // ---- known deviations (only the listed ones, smallest subsets first) ---------------------
-    let listed: Vec<&str> = [FLAG_COMPETES, FLAG_REPLACED, FLAG_LINES].into_iter().filter(|f| ctx.known(f)).collect();
-    let mut subsets: Vec<u32> = (1..(1u32 << listed.len())).collect();
-    subsets.sort_by_key(|m| (m.count_ones(), *m));
-    for m in subsets {
-        let on: Vec<&str> = listed.iter().enumerate().filter(|(i, _)| m & (1 << i) != 0).map(|(_, f)| *f).collect();
-        let d = Deviations {
-            exception_competes_as_6_7_pattern: on.contains(&FLAG_COMPETES),
-            exception_replaced_by_later_full_word_pattern: on.contains(&FLAG_REPLACED),
-        };
-        let Ok(lex2) = build_model(&c.loads, on.contains(&FLAG_LINES)) else { continue };
-        if lex2.positions_with(&w, d) == got {
-            return Verdict::Known(on.join("+"));
+    // ---- the text API every real caller uses (hyphenate-bin, hyphenate-wasm) ------------------
+    let want_text = hyphenated(&chars, &expected);
+    let mut via_string = String::new();
+    h.hypthenate(&lower, &c.word, &mut via_string);
+    if via_string != want_text {
+        return Verdict::Fail(format!(
+            "hypthenate() puts the hyphens elsewhere than calculate_indices() / Liang's definition\n{}\nexpected {want_text}\ngot      {via_string}",
+            render_case(c)
+        ));
+    }
+    // ---- the maximum digit itself (documented `aggregate_scores`: one entry per letter, entry i = max
+    //      digit in front of letter i, entry 0 forced to 0 - pinned by the crate's explanation goldens) -----
+    if !is_exc {
+        let e = h.calculate_explanation(&lower, &c.word);
+        let mut want = a.digits.clone();
+        want[0] = 0;
+        want.truncate(n);
+        if e.aggregate_scores != want {
+            return Verdict::Fail(format!(
+                "aggregate scores differ from the maximum digit over all matching patterns\n{}\nexpected {want:?}\ngot      {:?}",
+                render_case(c),
+                e.aggregate_scores
+            ));
+        }
+        if e.lower_cased.chars().ne(w.iter().copied()) {
+            return Verdict::Fail(format!("Explanation.lower_cased is {:?}, the lower-case map gives {:?}\n{}", e.lower_cased, w.iter().collect::<String>(), render_case(c)));
         }
     }
-    Verdict::Fail(format!(
-        "hyphen positions differ from Liang's definition\n{}\nlower-cased word: {}\nmax digits per position 0..=n (patterns only): {:?}\nword is an exception: {}\nexpected positions {:?} = {}\ngot      positions {:?} = {}",
-        render_case(c),
-        w.iter().collect::<String>(),
-        a.digits,
-        is_exc,
-        expected,
-        hyphenated(&chars, &expected),
-        got,
-        hyphenated(&chars, &got),
-    ))
+    // ---- second word of a requery case, on the fully loaded instance --------------------------
+    if let Some((_, other)) = &c.requery {
+        if let Some(qw) = lower_letters(&lower, other).filter(|q| !q.is_empty()) {
+            let got2: Vec<usize> = h.calculate_indices(&lower, other).collect();
+            let exp2 = lex.positions(&qw);
+            case.class_if(lex.analyse(&qw).exception.is_some(), "requery: second word is an exception at the end");
+            if got2 != exp2 {
+                if let Some(sig) = known_deviation(ctx, &c.loads, &qw, &got2) {
+                    return Verdict::Known(sig);
+                }
+                return Verdict::Fail(format!(
+                    "second word of the case, queried on the same instance after all loads, differs from Liang's definition\n{}\nqueried word: {other}\nexpected positions {exp2:?}\ngot      positions {got2:?}",
+                    render_case(c)
+                ));
+            }
+        }
+    }
+    Verdict::pass(nontrivial)
 }
 
-/// A word with a non-letter (lower-caser returns None) at index k. No caller in the repository
-/// passes such a word (boxworks-hyphenate cuts words at the first non-letter, as TeX §897 does) and
-/// the API documents nothing, so only what holds under both reasonable readings is demanded:
-///   A. TeX's: the word ends before the non-letter: result = Liang(`.prefix.`), exceptions apply;
+/// A word with a non-letter (lower-caser returns None) at index k. The property quantifies over words of
+/// letters, no caller in the repository passes such a word (boxworks-hyphenate cuts words at the first
+/// non-letter, as TeX §897 does) and the API documents nothing. So NOTHING is demanded here: the sub-check
+/// only records which of the plausible behaviours the implementation shows (evidence for whoever changes
+/// the API), and never fails - not even on a panic, which is counted and shown in the note instead.
+///   A. TeX's reading: the word ends before the non-letter: result = Liang(`.prefix.`), exceptions apply;
 ///   B. the non-letter is an unknown character that matches no pattern: result = patterns matching
-///      inside the prefix without any end anchor, no exception (the word is longer than the prefix),
-///      positions up to and including k.
-/// Under both readings nothing at a position > k may be reported.
-fn nonletter_oracle(lex: &Lexicon, lowered: &[Option<char>], k: usize, got: &[usize], c: &HCase, case: &mut Case) -> Verdict {
+///      inside the prefix without any end anchor, no exception, positions up to and including k.
+fn nonletter_explore(lex: &Lexicon, lowered: &[Option<char>], k: usize, got: &[usize], c: &HCase, case: &mut Case) -> Verdict {
     case.class("nonletter word");
     case.class_if(k == 0, "nonletter first");
     case.class_if(k + 1 == lowered.len(), "nonletter last");
     let prefix: Vec<char> = lowered[..k].iter().map(|x| x.unwrap()).collect();
-    if let Some(&p) = got.iter().find(|&&p| p > k) {
-        return Verdict::Fail(format!("hyphen at {p}, after the non-letter at index {k}\n{}", render_case(c)));
-    }
     let reading_a = if k == 0 { vec![] } else { lex.positions(&prefix) };
     // reading B: append a character that occurs in no pattern, ignore exceptions, keep positions <= k
     let mut ext = prefix.clone();
@@ -324,21 +563,18 @@ fn nonletter_oracle(lex: &Lexicon, lowered: &[Option<char>], k: usize, got: &[us
     let d = liang::max_digits(&ps, &ext);
     let reading_b: Vec<usize> = (1..=k).filter(|&p| d[p] % 2 == 1).collect();
     case.class_if(reading_a != reading_b, "nonletter: readings differ");
+    case.class_if(got.iter().any(|&p| p > k), "nonletter: hyphen after the non-letter (not judged)");
     if got == reading_a.as_slice() {
         case.class("nonletter: = TeX word-ends-here reading");
-        return Verdict::pass(false);
-    }
-    if got == reading_b.as_slice() {
+    } else if got == reading_b.as_slice() {
         case.class("nonletter: = unknown-character reading");
-        return Verdict::pass(false);
+    } else {
+        case.class("nonletter: neither reading (not judged)");
+        if case.replay {
+            case.note = Some(format!("{} => got {:?}; reading A {:?}; reading B {:?}", render_case(c), got, reading_a, reading_b));
+        }
     }
-    Verdict::Fail(format!(
-        "word with a non-letter at index {k}: result matches neither reading\n{}\nreading A (word ends at the non-letter): {:?}\nreading B (unknown character): {:?}\ngot: {:?}",
-        render_case(c),
-        reading_a,
-        reading_b,
-        got
-    ))
+    Verdict::pass(false)
 }
 
 // ---------------------------------------------------------------------------------------------
@@ -347,6 +583,30 @@ fn nonletter_oracle(lex: &Lexicon, lowered: &[Option<char>], k: usize, got: &[us
 const LOWER: [char; 5] = ['a', 'b', 'c', 'd', 'e'];
 const UPPER: [char; 5] = ['A', 'B', 'C', 'D', 'E'];
 const ALT_UPPER: [char; 5] = ['Z', 'Y', 'X', 'W', 'V'];
+
+/// Wide alphabets: slot i of the alphabet takes one of the (lower, upper) pairs of row i. The rows use
+/// pairwise disjoint characters, so every combination is a valid alphabet (checked in `run`). Shapes:
+/// lower and upper case of different UTF-8 length in both directions (1/2, 2/1, 2/3, 3/2, 4/1 bytes),
+/// 2-, 3- and 4-byte letters, letters without case (lower == upper: CJK, ª), the two apostrophes that real
+/// pattern files contain (`l'1a`), a non-Latin script. A multibyte letter may sit in any slot, hence
+/// anywhere in the word and the patterns.
+const SLOTS: [[(char, char); 6]; 5] = [
+    [('a', 'A'), ('a', 'Ä'), ('ä', 'A'), ('\u{1E01}', '\u{1E00}'), ('\u{1D4B6}', '\u{1D49C}'), ('\'', '\'')],
+    [('b', 'B'), ('ß', '\u{1E9E}'), ('\u{2C65}', '\u{023A}'), ('б', 'Б'), ('\u{10428}', '\u{10400}'), ('字', '字')],
+    [('c', 'C'), ('ç', 'C'), ('c', 'Ç'), ('ć', 'Ć'), ('ª', 'ª'), ('\u{1D4B8}', 'C')],
+    [('d', 'D'), ('đ', 'Đ'), ('ď', 'D'), ('d', 'Ď'), ('\u{1E0D}', '\u{1E0C}'), ('\u{2019}', '\u{2019}')],
+    [('e', 'E'), ('é', 'É'), ('é', 'E'), ('e', 'É'), ('\u{1EB9}', '\u{1EB8}'), ('\u{1D452}', '\u{1D438}')],
+];
+
+/// Alphabets for the TeX primitives: every character has a slot in the 256-entry `\lccode` table of
+/// texlang-texttransform (TeX82 is an 8-bit system; what a character >= 256 means there is not defined).
+const SLOTS8: [[(char, char); 4]; 5] = [
+    [('a', 'A'), ('a', 'Z'), ('a', 'Ä'), ('\'', '\'')],
+    [('b', 'B'), ('b', 'Y'), ('ß', 'ß'), ('þ', 'Þ')],
+    [('c', 'C'), ('ç', 'Ç'), ('ç', 'C'), ('c', 'X')],
+    [('d', 'D'), ('ð', 'Ð'), ('d', 'Ð'), ('ð', 'D')],
+    [('e', 'E'), ('é', 'É'), ('é', 'E'), ('e', 'É')],
+];
 
 type RawPat = ((u8, u8, u8, u16, u16), Vec<u8>, (u8, Vec<u8>, u16));
 type RawExc = ((u8, u16, u8, u16), Vec<u8>, Vec<u8>);
@@ -359,13 +619,21 @@ fn raw_exc() -> impl Strategy<Value = RawExc> {
     ((0u8..8, any::<u16>(), 0u8..16, any::<u16>()), proptest::collection::vec(0u8..5, 4), proptest::collection::vec(any::<u8>(), 41))
 }
 
-fn word_len() -> impl Strategy<Value = usize> {
+fn word_len(min: usize) -> BoxedStrategy<usize> {
+    if min > 1 {
+        return prop_oneof![
+            3 => min..=32,
+            2 => 33usize..=40,
+        ]
+        .boxed();
+    }
     prop_oneof![
         3 => 1usize..=6,
         3 => 7usize..=16,
         3 => 17usize..=32,
         2 => 33usize..=40,
     ]
+    .boxed()
 }
 
 /// Builds one pattern (letters as alphabet indices) from raw material; `w` is the lower-case word.
@@ -454,8 +722,52 @@ fn make_pattern(raw: &RawPat, w: &[u8], k: usize, maxd: u8, alphabet: &[char]) -
     Pattern { start, end, letters: letters.iter().map(|&i| alphabet[i as usize]).collect(), digits }
 }
 
-/// TeX text of a pattern; `explicit` decides where a zero digit is written out as `0`.
-fn pattern_text(p: &Pattern, explicit: &[u8]) -> String {
+/// In which gaps a zero digit is written out as a literal `0` (TeX accepts `a0b`; the packed op stream
+/// stores it as an op of its own). Dense patterns (dmode 0/1): sprinkled. Sparse and long patterns
+/// (dmode >= 2, the ones with zero runs >= 16): none / sprinkled / next to every non-zero digit /
+/// around the filler boundaries (gaps 15..17 and 31..33) and at one more random gap.
+fn explicit_zero_mask(raw: &RawPat, p: &Pattern) -> Vec<bool> {
+    let (dmode, dig, _) = &raw.2;
+    let m1 = p.digits.len();
+    let sprinkle = |i: usize| dig[i % dig.len()] % 16 == 2;
+    let mut mask = vec![false; m1];
+    let style = if *dmode <= 1 { 1 } else { (dig[37] % 5).saturating_sub(1) };
+    match style {
+        0 => {}
+        1 => {
+            for (i, x) in mask.iter_mut().enumerate() {
+                *x = sprinkle(i);
+            }
+        }
+        2 => {
+            for i in 0..m1 {
+                if p.digits[i] != 0 {
+                    if i > 0 {
+                        mask[i - 1] = true;
+                    }
+                    if i + 1 < m1 {
+                        mask[i + 1] = true;
+                    }
+                }
+            }
+        }
+        _ => {
+            for i in [15usize, 16, 17, 31, 32, 33] {
+                if i < m1 && dig[i] % 2 == 0 {
+                    mask[i] = true;
+                }
+            }
+            mask[dig[38] as usize % m1] = true;
+        }
+    }
+    for i in 0..m1 {
+        mask[i] &= p.digits[i] == 0;
+    }
+    mask
+}
+
+/// TeX text of a pattern; `explicit[i]` says that the zero digit of gap i is written out as `0`.
+fn pattern_text(p: &Pattern, explicit: &[bool]) -> String {
     let mut s = String::new();
     if p.start {
         s.push('.');
@@ -463,7 +775,7 @@ fn pattern_text(p: &Pattern, explicit: &[u8]) -> String {
     for (i, d) in p.digits.iter().enumerate() {
         if *d != 0 {
             s.push(char::from(b'0' + *d));
-        } else if explicit[i % explicit.len()] % 16 == 2 {
+        } else if explicit[i] {
             s.push('0');
         }
         if let Some(c) = p.letters.get(i) {
@@ -476,9 +788,12 @@ fn pattern_text(p: &Pattern, explicit: &[u8]) -> String {
     s
 }
 
-fn make_exception(raw: &RawExc, w: &[u8], k: usize, alphabet: &[char]) -> String {
+/// `may_be_word` = false: the exception list never contains the word itself (kinds 0/1 become near-misses), so
+/// that cases with dozens of exceptions still exercise the patterns.
+fn make_exception(raw: &RawExc, w: &[u8], k: usize, alphabet: &[char], may_be_word: bool) -> String {
     let ((kind, lenr, mode, pick), rnd, hyp) = raw;
     let n = w.len();
+    let kind = &(if !may_be_word && *kind <= 1 { 5 } else { *kind });
     let mut letters: Vec<u8> = match kind {
         0 | 1 => w.to_vec(),
         2 | 3 if n >= 2 => w[..1 + (*lenr as usize) % (n - 1)].to_vec(),
@@ -518,9 +833,15 @@ fn make_exception(raw: &RawExc, w: &[u8], k: usize, alphabet: &[char]) -> String
         hy[m] = true;
     }
     let mut s = String::new();
+    let mut doubled = false;
     for i in 0..=m {
         if hy[i] {
             s.push('-');
+            if *mode == 13 && !doubled {
+                // `a--b`: TeX §938 records the same position twice, i.e. one permitted hyphen
+                s.push('-');
+                doubled = true;
+            }
         }
         if i < m {
             s.push(alphabet[letters[i] as usize]);
@@ -529,23 +850,45 @@ fn make_exception(raw: &RawExc, w: &[u8], k: usize, alphabet: &[char]) -> String
     s
 }
 
-type RawCase = ((usize, u8, usize, Vec<u8>), (u8, Vec<bool>, u8), (Vec<RawPat>, Vec<RawExc>), (u8, Vec<u8>, u8));
+/// (alphabet mode, per-slot alphabet choice, requery mode, requery split, requery pick, text-syntax bits)
+type RawExt = (u8, Vec<u8>, u8, u16, u16, u8);
+type RawCase = ((usize, u8, usize, Vec<u8>), (u8, Vec<bool>, u8), (Vec<RawPat>, Vec<RawExc>), (u8, Vec<u8>, u8), RawExt);
 
-fn raw_case(max_pats: usize) -> impl Strategy<Value = RawCase> {
+#[derive(Clone, Copy)]
+struct Shape {
+    pats: (usize, usize),
+    excs: (usize, usize),
+    min_word: usize,
+}
+
+const SHAPE_STD: Shape = Shape { pats: (0, 30), excs: (0, 5), min_word: 1 };
+const SHAPE_SMALL: Shape = Shape { pats: (0, 12), excs: (0, 5), min_word: 1 };
+const SHAPE_BIG: Shape = Shape { pats: (100, 400), excs: (20, 80), min_word: 12 };
+
+fn raw_case(shape: Shape) -> impl Strategy<Value = RawCase> {
     (
-        (3usize..=5, any::<u8>(), word_len(), proptest::collection::vec(0u8..5, 40)),
+        (3usize..=5, any::<u8>(), word_len(shape.min_word), proptest::collection::vec(0u8..5, 40)),
         (0u8..6, proptest::collection::vec(any::<bool>(), 40), 0u8..10),
-        (proptest::collection::vec(raw_pat(), 0..=max_pats), proptest::collection::vec(raw_exc(), 0..=5)),
+        (proptest::collection::vec(raw_pat(), shape.pats.0..=shape.pats.1), proptest::collection::vec(raw_exc(), shape.excs.0..=shape.excs.1)),
         (0u8..6, proptest::collection::vec(any::<u8>(), 36), any::<u8>()),
+        (0u8..16, proptest::collection::vec(any::<u8>(), 5), 0u8..4, any::<u16>(), any::<u16>(), any::<u8>()),
     )
 }
 
-fn build_case(raw: &RawCase) -> HCase {
-    let ((k, flags, n, wl), (casemode, casebits, maxsel), (rpats, rexcs), (order, keys, sep)) = raw;
+fn build_case(raw: &RawCase, eight_bit: bool) -> HCase {
+    let ((k, flags, n, wl), (casemode, casebits, maxsel), (rpats, rexcs), (order, keys, sep), (amode, alpha, qmode, qsplit, qpick, xsyn)) = raw;
     let k = *k;
     let mut lower: Vec<char> = LOWER[..k].to_vec();
     let mut upper: Vec<char> = if (flags >> 3) % 4 == 0 { ALT_UPPER[..k].to_vec() } else { UPPER[..k].to_vec() };
-    if flags % 8 == 0 {
+    if eight_bit {
+        for i in 0..k {
+            (lower[i], upper[i]) = SLOTS8[i][alpha[i] as usize % 4];
+        }
+    } else if *amode >= 10 {
+        for i in 0..k {
+            (lower[i], upper[i]) = SLOTS[i][alpha[i] as usize % 6];
+        }
+    } else if flags % 8 == 0 {
         // a two-byte letter: character index != byte index
         lower[k - 1] = 'é';
         upper[k - 1] = 'É';
@@ -553,36 +896,35 @@ fn build_case(raw: &RawCase) -> HCase {
     let letters: Vec<(char, char)> = lower.iter().copied().zip(upper.iter().copied()).collect();
     let w: Vec<u8> = wl[..*n].iter().map(|x| x % k as u8).collect();
     let maxd: u8 = [5, 5, 5, 5, 5, 6, 6, 9, 9, 9][*maxsel as usize];
-    let word: String = w
-        .iter()
-        .enumerate()
-        .map(|(i, &l)| {
-            let up = match casemode {
-                0 | 1 => false,
-                2 => true,
-                3 => i == 0,
-                _ => casebits[i],
-            };
-            if up {
-                upper[l as usize]
-            } else {
-                lower[l as usize]
-            }
-        })
-        .collect();
+    let cased = |i: usize, l: u8| -> char {
+        let up = match casemode {
+            0 | 1 => false,
+            2 => true,
+            3 => i == 0,
+            _ => casebits[i],
+        };
+        if up {
+            upper[l as usize]
+        } else {
+            lower[l as usize]
+        }
+    };
+    let word: String = w.iter().enumerate().map(|(i, &l)| cased(i, l)).collect();
     // patterns, keys unique by construction (a later pattern with an already used key is dropped:
-    // TeX rejects it with "Duplicate pattern")
-    let mut pats: Vec<(Pattern, String)> = vec![];
+    // TeX rejects it with "Duplicate pattern"); the set is only asked for membership
+    let mut seen: std::collections::HashSet<(bool, bool, Vec<char>)> = std::collections::HashSet::new();
+    let mut pats: Vec<String> = vec![];
     for rp in rpats {
         let p = make_pattern(rp, &w, k, maxd, &lower);
-        if pats.iter().any(|(q, _)| q.same_key(&p)) {
+        if !seen.insert((p.start, p.end, p.letters.clone())) {
             continue;
         }
-        let explicit: &[u8] = if rp.2 .0 <= 1 { &rp.2 .1 } else { &[0] };
-        let t = pattern_text(&p, explicit);
-        pats.push((p, t));
+        let t = pattern_text(&p, &explicit_zero_mask(rp, &p));
+        pats.push(t);
     }
-    let excs: Vec<String> = rexcs.iter().map(|r| make_exception(r, &w, k, &lower)).collect();
+    // more than 5 exceptions (big tables): in half of the cases none of them is the word itself
+    let may_be_word = rexcs.len() <= 5 || (flags >> 5) & 1 == 1;
+    let excs: Vec<String> = rexcs.iter().map(|r| make_exception(r, &w, k, &lower, may_be_word)).collect();
     // load order
     #[derive(Clone)]
     enum Item {
@@ -590,8 +932,8 @@ fn build_case(raw: &RawCase) -> HCase {
         E(String),
     }
     let mut items: Vec<(u8, Item)> = vec![];
-    let pit = pats.iter().enumerate().map(|(i, (_, t))| (keys[i % 30], Item::P(t.clone())));
-    let eit = excs.iter().enumerate().map(|(i, t)| (keys[30 + i], Item::E(t.clone())));
+    let pit = pats.iter().enumerate().map(|(i, t)| (keys[i % 30], Item::P(t.clone())));
+    let eit = excs.iter().enumerate().map(|(i, t)| (keys[30 + i % 6], Item::E(t.clone())));
     match order {
         0 | 1 => {
             items.extend(pit);
@@ -609,14 +951,16 @@ fn build_case(raw: &RawCase) -> HCase {
     }
     let mut loads: Vec<Load> = vec![];
     let merge_exc = sep & 1 == 1;
-    let seps = [" ", "\n", "  ", " \n "];
+    // separators inside the documented format ("whitespace separated"): blank, newline, tab, CRLF, empty line
+    let seps: &[&str] = if (sep >> 1) & 1 == 0 { &[" ", "\n", "  ", " \n "] } else { &[" ", "\t", "\n", "\r\n", "  ", "\n\n", " \n ", " \t"] };
+    let chunk_max = if pats.len() > 40 { 8usize << (sep >> 6) } else { 8 };
     let mut in_chunk = 0usize;
     for (_, it) in items {
         match it {
             Item::P(t) => {
                 if let Some(Load::Patterns(cur)) = loads.last_mut() {
-                    if in_chunk < 8 {
-                        cur.push_str(seps[((sep >> 1) as usize + in_chunk) % 4]);
+                    if in_chunk < chunk_max {
+                        cur.push_str(seps[((sep >> 2) as usize + in_chunk) % seps.len()]);
                         cur.push_str(&t);
                         in_chunk += 1;
                         continue;
@@ -628,7 +972,7 @@ fn build_case(raw: &RawCase) -> HCase {
             Item::E(t) => {
                 if merge_exc {
                     if let Some(Load::Exceptions(cur)) = loads.last_mut() {
-                        cur.push_str(["\n", "\n", " ", "\t", "\n\n", " \n"][(sep >> 3) as usize % 6]);
+                        cur.push_str(["\n", "\n", " ", "\t", "\n\n", " \n", "\r\n", "\t \t"][(sep >> 3) as usize % 8]);
                         cur.push_str(&t);
                         continue;
                     }
@@ -639,32 +983,386 @@ fn build_case(raw: &RawCase) -> HCase {
             }
         }
     }
-    HCase { letters, loads, word }
+    // whitespace around the whole text of a load; load calls without any word
+    if xsyn & 3 == 0 {
+        let ws = [" ", "\n", "\t", "\r\n"];
+        for (j, l) in loads.iter_mut().enumerate() {
+            if let Load::Patterns(t) | Load::Exceptions(t) = l {
+                let a = ws[((xsyn >> 2) as usize + j) % 4];
+                let b = ws[((xsyn >> 4) as usize + j) % 4];
+                *t = format!("{a}{t}{b}");
+            }
+        }
+    }
+    if (xsyn >> 4) & 3 == 0 {
+        let empty = match xsyn >> 6 {
+            0 => Load::Patterns(String::new()),
+            1 => Load::Patterns(" \n\t".into()),
+            2 => Load::Exceptions(String::new()),
+            _ => Load::Exceptions("\r\n \n".into()),
+        };
+        let at = pick_idx(*qpick, loads.len() + 1);
+        loads.insert(at, empty);
+    }
+    // query -> load -> query
+    let requery = match qmode {
+        0 | 1 => None,
+        2 if !excs.is_empty() => {
+            // a word of the exception list (often a prefix, suffix or near-miss of the word)
+            let e: String = excs[pick_idx(*qpick, excs.len())].chars().filter(|c| *c != '-').collect();
+            Some((pick_idx(*qsplit, loads.len() + 1), if e.is_empty() { word.clone() } else { e }))
+        }
+        _ => {
+            // a prefix of the word (in its own letter case)
+            let len = 1 + pick_idx(*qpick, *n);
+            Some((pick_idx(*qsplit, loads.len() + 1), w[..len].iter().enumerate().map(|(i, &l)| cased(i, l)).collect()))
+        }
+    };
+    HCase { letters, loads, word, requery }
 }
 
-pub fn case_strategy(max_pats: usize) -> impl Strategy<Value = HCase> {
-    raw_case(max_pats).prop_map(|r| build_case(&r))
+fn case_strategy(shape: Shape) -> impl Strategy<Value = HCase> {
+    raw_case(shape).prop_map(|r| build_case(&r, false))
 }
 
 const NONLETTERS: [char; 8] = ['3', '-', ' ', '\'', 'z', '.', 'ß', '\u{0301}'];
 
 fn nonletter_strategy() -> impl Strategy<Value = HCase> {
-    (case_strategy(12), any::<u16>(), 0usize..8).prop_map(|(mut c, pos, which)| {
+    (case_strategy(SHAPE_SMALL), any::<u16>(), 0usize..8).prop_map(|(mut c, pos, which)| {
         let chars: Vec<char> = c.word.chars().collect();
         let at = pick_idx(pos, chars.len() + 1);
+        // the first candidate (cyclically from `which`) that is not a letter of this alphabet
+        let nl = (0..8).map(|j| NONLETTERS[(which + j) % 8]).find(|x| !c.letters.iter().any(|(lo, up)| lo == x || up == x)).unwrap_or('3');
         let mut s = String::new();
         for (i, ch) in chars.iter().enumerate() {
             if i == at {
-                s.push(NONLETTERS[which]);
+                s.push(nl);
             }
             s.push(*ch);
         }
         if at == chars.len() {
-            s.push(NONLETTERS[which]);
+            s.push(nl);
         }
         c.word = s;
+        c.requery = None;
         c
     })
+}
+
+// ---------------------------------------------------------------------------------------------
+// The TeX primitives \patterns and \hyphenation of texlang-texttransform
+
+#[derive(Debug, Clone, Serialize, Deserialize, PartialEq, Eq)]
+pub enum PrimCall {
+    /// `\patterns{<text>}`; the text is TeX source (blanks and single newlines separate the patterns)
+    Patterns(String),
+    /// `\hyphenation{<text>}`
+    Hyphenation(String),
+    /// `\def\vpx{<text>}\patterns{\vpx}`: TeX reads the argument with get_x_token (§961), macros expand
+    PatternsViaMacro(String),
+    /// `\def\vpx{<text>}\hyphenation{\vpx}` (§935)
+    HyphenationViaMacro(String),
+}
+
+#[derive(Debug, Clone, Serialize, Deserialize, PartialEq, Eq)]
+pub struct PrimCase {
+    /// (lower, upper), all below 256: the preamble sets `\lccode lower=lower` and `\lccode upper=lower`,
+    /// the queries use the same map as lower-caser
+    pub letters: Vec<(char, char)>,
+    pub calls: Vec<PrimCall>,
+    pub word: String,
+}
+
+fn prim_source(c: &PrimCase) -> String {
+    let mut s = String::new();
+    for &(lo, up) in &c.letters {
+        s.push_str(&format!("\\lccode {} {} ", lo as u32, lo as u32));
+        if up != lo {
+            s.push_str(&format!("\\lccode {} {} ", up as u32, lo as u32));
+        }
+    }
+    s.push('\n');
+    for call in &c.calls {
+        match call {
+            PrimCall::Patterns(t) => s.push_str(&format!("\\patterns{{{t}}}\n")),
+            PrimCall::Hyphenation(t) => s.push_str(&format!("\\hyphenation{{{t}}}\n")),
+            PrimCall::PatternsViaMacro(t) => s.push_str(&format!("\\def\\vpx{{{t}}}\\patterns{{\\vpx}}\n")),
+            PrimCall::HyphenationViaMacro(t) => s.push_str(&format!("\\def\\vpx{{{t}}}\\hyphenation{{\\vpx}}\n")),
+        }
+    }
+    s
+}
+
+/// TeX-safe rendering of a whitespace separated list: single blanks, double blanks, single newlines
+/// (never an empty line: that is a `\par` token, which TeX rejects inside both primitives).
+fn tex_join(text: &str, salt: usize) -> String {
+    let seps = [" ", "\n", "  ", " \n"];
+    let mut s = String::new();
+    for (i, tok) in text.split_whitespace().enumerate() {
+        if i > 0 {
+            s.push_str(seps[(salt + i) % 4]);
+        }
+        s.push_str(tok);
+    }
+    s
+}
+
+fn prim_strategy() -> impl Strategy<Value = PrimCase> {
+    (raw_case(SHAPE_SMALL), 0u8..4, proptest::collection::vec(any::<bool>(), 64), any::<u8>()).prop_map(|(raw, upmode, upbits, salt)| {
+        let h = build_case(&raw, true);
+        let mut seen = 0usize;
+        let mut up = |t: &str| -> String {
+            t.chars()
+                .map(|ch| {
+                    let Some(&(_, u)) = h.letters.iter().find(|(lo, _)| *lo == ch) else { return ch };
+                    seen += 1;
+                    let raise = match upmode {
+                        0 | 1 => false,
+                        2 => true,
+                        _ => upbits[seen % 64],
+                    };
+                    if raise {
+                        u
+                    } else {
+                        ch
+                    }
+                })
+                .collect()
+        };
+        let mut calls = vec![];
+        for (j, l) in h.loads.iter().enumerate() {
+            let via_macro = (salt as usize + j) % 7 == 0;
+            let s = salt as usize + j;
+            calls.push(match l {
+                Load::Patterns(t) if via_macro => PrimCall::PatternsViaMacro(up(&tex_join(t, s))),
+                Load::Patterns(t) => PrimCall::Patterns(up(&tex_join(t, s))),
+                Load::Exception(t) | Load::Exceptions(t) if via_macro => PrimCall::HyphenationViaMacro(up(&tex_join(t, s))),
+                Load::Exception(t) | Load::Exceptions(t) => PrimCall::Hyphenation(up(&tex_join(t, s))),
+                Load::PlainTex => continue, // never produced by build_case
+            });
+        }
+        PrimCase { letters: h.letters, calls, word: h.word }
+    })
+}
+
+pub const FLAG_PRIM_GROUP: &str = "flag:hyphenation_primitive_stores_group_as_one_word";
+pub const FLAG_PRIM_LCCODE: &str = "flag:patterns_hyphenation_primitives_ignore_lccode";
+
+/// The tables TeX builds from the calls (§934-§939 `\hyphenation`: letters are replaced by their
+/// `\lccode`, every blank ends a word and each word is entered; §960-§963 `\patterns`: likewise, digits
+/// and `.` stand for themselves). Named deviations (both off = TeX):
+///   `group_as_one_word`  `\hyphenation{w1 w2}` enters ONE exception whose "letters" include the blanks
+///   `ignore_lccode`      the characters are stored as written (no `\lccode` mapping)
+fn prim_model(c: &PrimCase, group_as_one_word: bool, ignore_lccode: bool) -> Result<Lexicon, String> {
+    let map = |t: &str| -> String {
+        if ignore_lccode {
+            return t.to_string();
+        }
+        t.chars().map(|ch| c.letters.iter().find(|(_, up)| *up == ch).map(|(lo, _)| *lo).unwrap_or(ch)).collect()
+    };
+    let mut lex = Lexicon::default();
+    for call in &c.calls {
+        match call {
+            PrimCall::Patterns(t) | PrimCall::PatternsViaMacro(t) => lex.push_patterns(&map(t))?,
+            PrimCall::Hyphenation(t) | PrimCall::HyphenationViaMacro(t) => {
+                let words: Vec<String> = map(t).split_whitespace().map(|x| x.to_string()).collect();
+                if group_as_one_word {
+                    // what the token loop collects: every run of blanks/newlines is one space token
+                    lex.push_exception(&words.join(" "));
+                } else {
+                    for w in &words {
+                        lex.push_exception(w);
+                    }
+                }
+            }
+        }
+    }
+    Ok(lex)
+}
+
+mod prim_vm {
+    //! Smallest state that can run `\lccode`, `\patterns`, `\hyphenation` (and `\def`).
+    use std::collections::HashMap;
+    use texlang::traits::*;
+    use texlang::vm::implement_has_component;
+    use texlang::{command, error, vm};
+    use texlang_stdlib::prefix;
+    use texlang_texttransform as tt;
+
+    #[derive(Default)]
+    pub struct PState {
+        pub hyph: tt::HyphenationComponent,
+        pub lccode: tt::LcCodeComponent,
+        pub prefix: prefix::Component,
+        pub recovered: std::cell::RefCell<Vec<String>>,
+    }
+
+    impl TexlangState for PState {
+        fn variable_assignment_scope_hook(state: &mut Self) -> texcraft_stdext::collections::groupingmap::Scope {
+            prefix::variable_assignment_scope_hook(state)
+        }
+        fn recoverable_error_hook(&self, e: error::TracedTexError) -> Result<(), Box<dyn error::TexError>> {
+            self.recovered.borrow_mut().push(e.error.title());
+            Ok(())
+        }
+    }
+
+    implement_has_component![PState {
+        hyph: tt::HyphenationComponent,
+        lccode: tt::LcCodeComponent,
+        prefix: prefix::Component,
+    }];
+
+    pub struct NoOutput;
+    impl vm::Handlers<PState> for NoOutput {}
+
+    pub fn new_vm() -> Box<vm::VM<PState>> {
+        let cmds: HashMap<&'static str, command::BuiltIn<PState>> = HashMap::from([
+            ("patterns", tt::get_patterns()),
+            ("hyphenation", tt::get_hyphenation()),
+            ("lccode", tt::get_lccode()),
+            ("def", texlang_stdlib::def::get_def()),
+        ]);
+        Box::new(vm::VM::<PState>::new_with_built_in_commands(cmds))
+    }
+
+    /// The hyphenator the two primitives write to. `HyphenationComponent` keeps it in a private field and
+    /// offers no accessor (and no other observable effect: nothing in the workspace reads the component).
+    /// The component is a struct whose ONLY field is that `Hyphenator`; a struct that is exactly as large
+    /// as one of its fields stores that field at offset 0, so a reference to the component is a valid
+    /// reference to the field. The size/alignment test guards the cast: if the component ever gets another
+    /// layout the sub-check stops with an infrastructure error (exit 2) instead of guessing - the
+    /// alternative then is the one-line accessor
+    /// `impl HyphenationComponent { pub fn hyphenator(&self) -> &hyphenate::Hyphenator { &self.hyphenator } }`.
+    #[cfg(texcraft_verif)]
+    pub fn hyphenator(c: &tt::HyphenationComponent) -> &hyphenate::Hyphenator {
+        // the guarded hook in /repo (MANIFEST.hooks)
+        c.hyphenator()
+    }
+
+    /// Fallback for builds without the cfg flag (cargo-fuzz sets RUSTFLAGS itself).
+    #[cfg(not(texcraft_verif))]
+    pub fn hyphenator(c: &tt::HyphenationComponent) -> &hyphenate::Hyphenator {
+        use std::mem::{align_of, size_of};
+        if size_of::<tt::HyphenationComponent>() != size_of::<hyphenate::Hyphenator>() || align_of::<tt::HyphenationComponent>() != align_of::<hyphenate::Hyphenator>() {
+            eprintln!("C13 primitives: HyphenationComponent is no longer just a Hyphenator; a public accessor is needed to observe it");
+            std::process::exit(2);
+        }
+        // SAFETY: see above - same size and alignment, the Hyphenator is the only field.
+        unsafe { &*(c as *const tt::HyphenationComponent as *const hyphenate::Hyphenator) }
+    }
+}
+
+fn prim_oracle(ctx: &Ctx, c: &PrimCase, case: &mut Case) -> Verdict {
+    let lex = match prim_model(c, false, false) {
+        Ok(l) => l,
+        Err(_) => return Verdict::Skip("malformed pattern (outside the domain)"),
+    };
+    if has_duplicate_keys(&lex) {
+        return Verdict::Skip("duplicate pattern key (TeX: Duplicate pattern error)");
+    }
+    if c.letters.iter().any(|&(lo, up)| lo as u32 > 255 || up as u32 > 255) {
+        return Verdict::Skip("character without an \\lccode slot (outside TeX82)");
+    }
+    let lower = MapLower(&c.letters);
+    let chars: Vec<char> = c.word.chars().collect();
+    let Some(w) = lower_letters(&lower, &c.word).filter(|w| !w.is_empty()) else { return Verdict::Skip("word contains a non-letter") };
+    let n = w.len();
+    let source = prim_source(c);
+    let mut vm = prim_vm::new_vm();
+    if vm.push_source("c13.tex".to_string(), source.clone()).is_err() {
+        return Verdict::Fail("push_source failed".into());
+    }
+    let r = vm.run::<prim_vm::NoOutput>();
+    let recovered = vm.state.recovered.borrow().clone();
+    if let Err(e) = &r {
+        return Verdict::Fail(format!("TeX accepts this input without an error, the VM stops with: {}\n{source}", e.error.title()));
+    }
+    if !recovered.is_empty() {
+        return Verdict::Fail(format!("TeX accepts this input without an error, the VM reports: {recovered:?}\n{source}"));
+    }
+    let h = prim_vm::hyphenator(&vm.state.hyph);
+    let got: Vec<usize> = h.calculate_indices(&lower, &c.word).collect();
+    let expected = lex.positions(&w);
+    let a = lex.analyse(&w);
+
+    let is_upper = |ch: char| c.letters.iter().any(|&(lo, up)| up == ch && lo != up);
+    let (mut up_pat, mut up_exc, mut multi, mut multi_pat, mut via_macro) = (false, false, false, false, false);
+    for call in &c.calls {
+        match call {
+            PrimCall::Patterns(t) | PrimCall::PatternsViaMacro(t) => {
+                up_pat |= t.chars().any(is_upper);
+                multi_pat |= t.split_whitespace().count() >= 2;
+            }
+            PrimCall::Hyphenation(t) | PrimCall::HyphenationViaMacro(t) => {
+                up_exc |= t.chars().any(is_upper);
+                multi |= t.split_whitespace().count() >= 2;
+            }
+        }
+        via_macro |= matches!(call, PrimCall::PatternsViaMacro(_) | PrimCall::HyphenationViaMacro(_));
+    }
+    case.class_if(multi, "prim: \\hyphenation with >=2 words");
+    case.class_if(multi_pat, "prim: \\patterns with >=2 patterns");
+    case.class_if(up_pat, "prim: upper-case letter in a \\patterns argument");
+    case.class_if(up_exc, "prim: upper-case letter in a \\hyphenation argument");
+    case.class_if(via_macro, "prim: argument through a macro");
+    case.class_if(c.letters.iter().any(|(lo, up)| !lo.is_ascii() || !up.is_ascii()), "prim: alphabet with a non-ASCII (8-bit) letter");
+    case.class_if(c.letters.iter().any(|(lo, up)| lo.len_utf8() != up.len_utf8()), "prim: lower/upper case differ in UTF-8 length");
+    let is_exc = a.exception.is_some();
+    case.class_if(is_exc, "word is an exception");
+    if let Some(ie) = a.exception {
+        // which call listed the applicable exception, and how many words does that call have
+        let mut idx = 0usize;
+        'outer: for call in &c.calls {
+            match call {
+                PrimCall::Patterns(t) | PrimCall::PatternsViaMacro(t) => idx += t.split_whitespace().count(),
+                PrimCall::Hyphenation(t) | PrimCall::HyphenationViaMacro(t) => {
+                    let k = t.split_whitespace().count();
+                    if ie < idx + k {
+                        case.class_if(k >= 2, "prim: the word's exception comes from a \\hyphenation with >=2 words");
+                        case.class_if(t.chars().any(is_upper), "prim: the word's exception is written with upper-case letters");
+                        break 'outer;
+                    }
+                    idx += k;
+                }
+            }
+        }
+    }
+    case.class_if(!expected.is_empty(), "has a hyphen");
+    let interior_nonzero = (1..n).any(|p| a.nonzero_contributions[p] >= 1);
+    let compete = !is_exc && (1..n).any(|p| a.nonzero_contributions[p] >= 2);
+    let exc_and_pattern = is_exc && interior_nonzero;
+    let long = !is_exc && a.longest_matched_pattern > 16;
+    case.class_if(compete, "NT: >=2 patterns compete at a position");
+    case.class_if(exc_and_pattern, "NT: exception word also matches a pattern");
+    case.class_if(long, "NT: pattern >16 letters matched");
+    let nontrivial = compete || exc_and_pattern || long;
+    if nontrivial || case.replay {
+        case.note = Some(format!("{} | word={} => {}", source.replace('\n', "⏎"), c.word, hyphenated(&chars, &expected)));
+    }
+    if got == expected {
+        return Verdict::pass(nontrivial);
+    }
+    let listed: Vec<&str> = [FLAG_PRIM_GROUP, FLAG_PRIM_LCCODE].into_iter().filter(|f| ctx.known(f)).collect();
+    let mut subsets: Vec<u32> = (1..(1u32 << listed.len())).collect();
+    subsets.sort_by_key(|m| (m.count_ones(), *m));
+    for m in subsets {
+        let on: Vec<&str> = listed.iter().enumerate().filter(|(i, _)| m & (1 << i) != 0).map(|(_, f)| *f).collect();
+        let Ok(lex2) = prim_model(c, on.contains(&FLAG_PRIM_GROUP), on.contains(&FLAG_PRIM_LCCODE)) else { continue };
+        if lex2.positions(&w) == got {
+            return Verdict::Known(on.join("+"));
+        }
+    }
+    Verdict::Fail(format!(
+        "after running the TeX source, the hyphenator of the \\patterns/\\hyphenation component differs from TeX's tables\n{source}word: {}  (lower-cased: {})\nword is an exception (TeX): {}\nexpected positions {:?} = {}\ngot      positions {:?} = {}",
+        c.word,
+        w.iter().collect::<String>(),
+        is_exc,
+        expected,
+        hyphenated(&chars, &expected),
+        got,
+        hyphenated(&chars, &got),
+    ))
 }
 
 // ---------------------------------------------------------------------------------------------
@@ -693,7 +1391,18 @@ pub enum Golden {
     Word { word: String, expected: String },
     /// `explanation_tests!`: aggregate scores (positions 0..n-1, position 0 forced to 0)
     Scores { word: String, scores: Vec<u8> },
+    /// The two anchored data files hold plain TeX's tables (hyphen.tex, frozen): 4447 patterns, the 14
+    /// exceptions, and an order-independent fingerprint of the pattern set. (Model and implementation
+    /// both read these files, so damage to a file is invisible to the other sub-checks.)
+    PlainData,
 }
+
+/// hyphen.tex `\hyphenation{...}`
+const HYPHEN_TEX_EXCEPTIONS: [&str; 14] = [
+    "as-so-ciate", "as-so-ciates", "dec-li-na-tion", "oblig-a-tory", "phil-an-thropic", "present", "presents", "project", "projects", "reci-procity", "re-cog-ni-zance", "ref-or-ma-tion", "ret-ri-bu-tion", "ta-ble",
+];
+/// wrapping sum of fnv64 over the 4447 pattern tokens of hyphen.tex (order-independent)
+const HYPHEN_TEX_PATTERNS_FINGERPRINT: u64 = 0x84bd_214f_bd88_0f88;
 
 fn goldens() -> Vec<Golden> {
     let words = [
@@ -722,6 +1431,7 @@ fn goldens() -> Vec<Golden> {
     v.push(Golden::Scores { word: "DifFicult".into(), scores: vec![0, 1, 4, 1, 0, 3, 0, 4, 0] });
     v.push(Golden::Scores { word: "cove".into(), scores: vec![0, 0, 4, 1] });
     v.push(Golden::Scores { word: "antce".into(), scores: vec![0, 2, 4, 4, 0] });
+    v.push(Golden::PlainData);
     v
 }
 
@@ -765,13 +1475,35 @@ fn golden_oracle(g: &Golden, case: &mut Case) -> Verdict {
             }
             Verdict::pass(true)
         }
+        Golden::PlainData => {
+            let pats: Vec<&str> = PLAIN_PATTERNS.split_whitespace().collect();
+            let excs: Vec<&str> = PLAIN_EXCEPTIONS.split_whitespace().collect();
+            let fp = pats.iter().fold(0u64, |acc, t| acc.wrapping_add(fnv64(t.as_bytes())));
+            case.note = Some(format!("plain_tex_patterns.txt: {} patterns, fingerprint {fp:#018x}; plain_tex_exceptions.txt: {} words", pats.len(), excs.len()));
+            if pats.len() != 4447 {
+                return Verdict::Fail(format!("plain_tex_patterns.txt holds {} patterns, hyphen.tex has 4447", pats.len()));
+            }
+            if excs != HYPHEN_TEX_EXCEPTIONS {
+                return Verdict::Fail(format!("plain_tex_exceptions.txt is not hyphen.tex's exception list: {excs:?}"));
+            }
+            if pats.iter().any(|t| Pattern::parse(t).is_err() || t.contains('0') || t.chars().any(|ch| !(ch.is_ascii_lowercase() || ch.is_ascii_digit() || ch == '.'))) {
+                return Verdict::Fail("plain_tex_patterns.txt holds a token that is not a hyphen.tex pattern (letters a-z, digits 1-9, dots)".into());
+            }
+            if fp != HYPHEN_TEX_PATTERNS_FINGERPRINT {
+                return Verdict::Fail(format!(
+                    "plain_tex_patterns.txt changed: fingerprint {fp:#018x}, pinned {HYPHEN_TEX_PATTERNS_FINGERPRINT:#018x} (hyphen.tex is frozen; if the file was deliberately corrected towards hyphen.tex, re-pin the constant)"
+                ));
+            }
+            Verdict::pass(false)
+        }
     }
 }
 
-/// Pseudo-English: the letters of 1..6 plain TeX patterns glued together (so that many patterns
-/// match and overlap), random case, at most 40 letters; sometimes one of the 14 exception words.
+/// Pseudo-English: the letters of 1..10 plain TeX patterns glued together (so that many patterns
+/// match and overlap), random case, at most 40 letters (one word in 16 is cut to 1-3 letters);
+/// sometimes one of the 14 exception words.
 fn plain_word_strategy() -> impl Strategy<Value = String> {
-    (proptest::collection::vec(any::<u16>(), 1..=6), proptest::collection::vec(any::<bool>(), 40), 0u8..12, any::<u16>()).prop_map(|(picks, caps, mode, e)| {
+    (proptest::collection::vec(any::<u16>(), 1..=10), proptest::collection::vec(any::<bool>(), 40), 0u8..12, any::<u16>()).prop_map(|(picks, caps, mode, e)| {
         static LETTERS: OnceLock<(Vec<String>, Vec<String>)> = OnceLock::new();
         let (pl, ex) = LETTERS.get_or_init(|| {
             (
@@ -787,7 +1519,8 @@ fn plain_word_strategy() -> impl Strategy<Value = String> {
                 s.push_str(&pl[pick_idx(p, pl.len())]);
             }
         }
-        let s: String = s.chars().take(40).collect();
+        let keep = if mode != 0 && e % 16 == 0 { 1 + (e as usize / 16) % 3 } else { 40 };
+        let s: String = s.chars().take(keep).collect();
         s.chars()
             .enumerate()
             .map(|(i, c)| {
@@ -823,7 +1556,8 @@ fn plain_oracle(word: &String, case: &mut Case) -> Verdict {
     case.class_if((1..n).any(|p| a.parity_conflict[p]), "odd and even digit at one position");
     case.class_if(chars != w, "word has upper case");
     case.class(match n {
-        1..=6 => "len<=6",
+        1..=2 => "len<=2",
+        3..=6 => "len=3..6",
         7..=16 => "len=7..16",
         17..=32 => "len=17..32",
         _ => "len>=33",
@@ -834,6 +1568,96 @@ fn plain_oracle(word: &String, case: &mut Case) -> Verdict {
     } else {
         Verdict::Fail(format!("plain TeX patterns: {word}: expected {:?} = {}, got {:?} = {}", expected, hyphenated(&chars, &expected), got, hyphenated(&chars, &got)))
     }
+}
+
+/// Plain TeX's tables plus generated ones: 5-30 extra patterns over a-z built from the word (digits up to
+/// 9, up to 40 letters, anchors; keys that plain TeX already uses are dropped) and 50-400 extra exceptions
+/// (the word, its prefixes/suffixes/near-misses, and pseudo-English words), loaded before, after or
+/// around plain TeX's.
+fn overlay_strategy() -> impl Strategy<Value = HCase> {
+    (
+        plain_word_strategy(),
+        proptest::collection::vec(raw_pat(), 5..=30),
+        proptest::collection::vec((raw_exc(), any::<u16>(), any::<u16>()), 50..=400),
+        (0u8..10, 0u8..6, any::<u8>(), 0u8..4, any::<u16>(), any::<u16>(), any::<bool>()),
+    )
+        .prop_map(|(word, rpats, rexcs, (maxsel, order, sep, qmode, qsplit, qpick, may_be_word))| {
+            static AZ: OnceLock<(Vec<char>, Vec<String>, std::collections::HashSet<(bool, bool, Vec<char>)>)> = OnceLock::new();
+            let (az, plain_letters, plain_keys) = AZ.get_or_init(|| {
+                let ps = plain_model().patterns();
+                (
+                    ('a'..='z').collect(),
+                    ps.iter().map(|p| p.letters.iter().collect::<String>()).collect(),
+                    ps.iter().map(|p| (p.start, p.end, p.letters.clone())).collect(),
+                )
+            });
+            let idx = |s: &str| -> Vec<u8> { s.chars().map(|c| c.to_ascii_lowercase() as u8 - b'a').collect() };
+            let w = idx(&word);
+            let maxd: u8 = [5, 5, 5, 5, 5, 6, 6, 9, 9, 9][maxsel as usize];
+            let mut seen: std::collections::HashSet<(bool, bool, Vec<char>)> = std::collections::HashSet::new();
+            let mut pats: Vec<String> = vec![];
+            for rp in &rpats {
+                let p = make_pattern(rp, &w, 26, maxd, az);
+                let key = (p.start, p.end, p.letters.clone());
+                if plain_keys.contains(&key) || !seen.insert(key) {
+                    continue;
+                }
+                pats.push(pattern_text(&p, &explicit_zero_mask(rp, &p)));
+            }
+            let excs: Vec<String> = rexcs
+                .iter()
+                .map(|(re, p1, p2)| {
+                    if re.0 .0 >= 5 {
+                        // a pseudo-English word: the letters of two plain TeX patterns, hyphenated at random
+                        let mut t = plain_letters[pick_idx(*p1, plain_letters.len())].clone();
+                        t.push_str(&plain_letters[pick_idx(*p2, plain_letters.len())]);
+                        let wx = idx(&t);
+                        let mut re2 = re.clone();
+                        re2.0 .0 = 0;
+                        make_exception(&re2, &wx, 26, az, true)
+                    } else {
+                        make_exception(re, &w, 26, az, may_be_word)
+                    }
+                })
+                .collect();
+            let mut extra: Vec<Load> = vec![];
+            if !pats.is_empty() {
+                extra.push(Load::Patterns(pats.join(["\n", " ", "\r\n", "\t"][(sep >> 1) as usize % 4])));
+            }
+            let per_call = [400usize, 50, 7, 1][(sep >> 3) as usize % 4];
+            for chunk in excs.chunks(per_call) {
+                if per_call == 1 {
+                    extra.push(Load::Exception(chunk[0].clone()));
+                } else {
+                    extra.push(Load::Exceptions(chunk.join(["\n", " ", "\r\n", "\t"][(sep >> 5) as usize % 4])));
+                }
+            }
+            let mut loads: Vec<Load> = vec![];
+            match order {
+                0 | 1 => {
+                    loads.push(Load::PlainTex);
+                    loads.extend(extra);
+                }
+                2 | 3 => {
+                    loads.extend(extra);
+                    loads.push(Load::PlainTex);
+                }
+                _ => {
+                    let at = pick_idx(qpick, extra.len() + 1);
+                    let tail = extra.split_off(at);
+                    loads.extend(extra);
+                    loads.push(Load::PlainTex);
+                    loads.extend(tail);
+                }
+            }
+            let requery = match qmode {
+                0 | 1 => None,
+                2 => Some((pick_idx(qsplit, loads.len() + 1), excs[pick_idx(qpick, excs.len())].chars().filter(|c| *c != '-').collect())),
+                _ => Some((pick_idx(qsplit, loads.len() + 1), HYPHEN_TEX_EXCEPTIONS[pick_idx(qpick, 14)].chars().filter(|c| *c != '-').collect())),
+            };
+            let letters: Vec<(char, char)> = ('a'..='z').zip('A'..='Z').collect();
+            HCase { letters, loads, word, requery }
+        })
 }
 
 // ---------------------------------------------------------------------------------------------
@@ -871,7 +1695,7 @@ fn pool_case(i: u64, sets: &[Vec<usize>], words: &[String]) -> HCase {
     let wi = (i % words.len() as u64) as usize;
     let si = (i / words.len() as u64) as usize;
     let text: Vec<&str> = sets[si].iter().map(|&j| POOL[j]).collect();
-    HCase { letters: abc_letters(), loads: vec![Load::Patterns(text.join(" "))], word: words[wi].clone() }
+    HCase { letters: abc_letters(), loads: vec![Load::Patterns(text.join(" "))], word: words[wi].clone(), requery: None }
 }
 
 fn pool_sets(arity: usize) -> Vec<Vec<usize>> {
@@ -917,13 +1741,15 @@ fn small_exceptions(max_len: usize) -> Vec<String> {
 // ---------------------------------------------------------------------------------------------
 
 pub fn run(ctx: &Ctx) {
-    ctx.rule("case = alphabet of 3-5 letters with an upper-case partner each (lower-caser argument; sometimes a 2-byte letter or a non-ASCII-style pairing) x 0-30 TeX patterns (digits 0-9 in every gap incl. before the first/after the last letter, '.' anchors at either/both ends, mostly substrings or near-misses of the word so they overlap and nest, lengths up to 40 with sparse digits for zero runs >=16) x 0-5 exceptions (the word itself, prefixes, suffixes, near-misses; random hyphen sets) x load order (patterns first, exceptions first, interleaved; several load_patterns / insert_exception(s) calls) x word of 1-40 letters in mixed case; expected = naive Liang (max digit over every pattern at every alignment of .word., odd => hyphen at positions 1..n-1; an exception word gets exactly its listed positions). non-trivial = the word is not an exception and >=2 (pattern, alignment) matches put a non-zero digit on one interior position, or it is not an exception and a pattern of more than 16 letters matched, or the word is an exception and some pattern puts a non-zero digit on an interior position; distinct = by full case text. pool_* sub-checks enumerate exhaustively (same oracle, same rule)");
+    ctx.rule("case = alphabet of 3-5 letters with an upper-case partner each (lower-caser argument; ASCII, a 2-byte letter, a non-ASCII-style pairing, or a wide alphabet: lower/upper case of different UTF-8 length in both directions, 2-, 3- and 4-byte letters in any slot, uncased letters, apostrophes) x 0-30 TeX patterns (digits 0-9 in every gap incl. before the first/after the last letter, '.' anchors at either/both ends, mostly substrings or near-misses of the word so they overlap and nest, lengths up to 40 with sparse digits for zero runs >=16, literal 0 digits also next to non-zero digits and around gaps 15-17/31-33 of long patterns) x 0-5 exceptions (the word itself, prefixes, suffixes, near-misses; random hyphen sets, leading/trailing/doubled hyphens) x load order (patterns first, exceptions first, interleaved; several load_patterns / insert_exception(s) calls; blanks, tabs, newlines, CRLF, empty lines, leading/trailing whitespace, calls without any word) x word of 1-40 letters in mixed case x optionally a first query of the word and of a second word after a prefix of the loads (query -> load -> query on one instance); big_tables: the same with 100-400 patterns and 20-80 exceptions; plain_overlay: plain TeX's 4447 patterns and 14 exceptions plus 5-30 generated patterns and 50-400 exceptions; primitives: the case is written as TeX source (\\lccode assignments, \\patterns{..}, \\hyphenation{w1 w2 ..}, letters of the arguments in either case, sometimes through a macro) and run in a VM. expected = naive Liang (max digit over every pattern at every alignment of .word., odd => hyphen at positions 1..n-1; an exception word gets exactly its listed positions); checked on calculate_indices, on the text of hypthenate(), and (non-exception words) on the aggregate scores of calculate_explanation. non-trivial = the word is not an exception and >=2 (pattern, alignment) matches put a non-zero digit on one interior position, or it is not an exception and a pattern of more than 16 letters matched, or the word is an exception and some pattern puts a non-zero digit on an interior position; distinct = by full case text. pool_* sub-checks enumerate exhaustively (same oracle, same rule)");
     ctx.assume("patterns are well-formed TeX patterns: at least one letter, at most one digit per gap, '.' only as first/last character, no digit outside the dots; two patterns with the same letters and anchors never occur in one set (TeX: 'Duplicate pattern' error) - enforced by construction");
-    ctx.assume("patterns and exceptions are given in lower case (TeX lower-cases them through \\lccode when \\patterns/\\hyphenation is read; load_patterns/insert_exception take no lower-caser, so that step is the caller's)");
+    ctx.assume("load_patterns/insert_exception(s) receive lower-case text (they take no lower-caser; TeX lower-cases through \\lccode when \\patterns/\\hyphenation is read, tex.web 937/962, and that step is checked on the caller, the TeX primitives, in sub-check primitives)");
     ctx.assume("position n (after the last letter) is never a hyphen: TeX only inspects l_hyf..hn-r_hyf with both minimums >= 1; the crate's documented convention (scores truncated to n entries) agrees");
     ctx.assume("the same word listed twice as an exception: the later entry wins (TeX 940)");
-    ctx.assume("insert_exceptions takes words separated by whitespace, as its documentation says (blank, tab or newline)");
-    ctx.assume("nonletter_words: no repository caller passes a non-letter and the API documents nothing; accepted = TeX's reading (word ends before the non-letter) or the unknown-character reading, never a hyphen after the non-letter; these cases are never counted as non-trivial");
+    ctx.assume("insert_exceptions and load_patterns take words separated by whitespace, as their documentation says (blank, tab, newline, CRLF, any amount, also around the text); a hyphen written twice in an exception marks the same position once (TeX 938)");
+    ctx.assume("nonletter_words: the property quantifies over words of letters, no repository caller passes a non-letter and the API documents nothing; the sub-check only classifies the behaviour (TeX's reading: word ends before the non-letter; unknown-character reading; anything else; a panic) and never reports a violation; never counted as non-trivial");
+    ctx.assume("primitives: characters below 256 only (the \\lccode table of texlang-texttransform has 256 entries, TeX82 is an 8-bit system) and every letter of the alphabet has its \\lccode set explicitly (texlang-texttransform starts with all \\lccode = 0, unlike IniTeX 232; with \\lccode 0 TeX reports 'Not a letter'); no empty line inside an argument (\\par is an error there); the component's hyphenator is read through a size-checked cast because HyphenationComponent has no accessor");
+    ctx.assume("calculate_explanation().aggregate_scores has one entry per letter, entry i = maximum digit in front of letter i, entry 0 forced to 0 (the format the crate's three explanation goldens pin); compared only for words that are not exceptions");
 
     {
         // infrastructure self-check: the pool must be inside the domain (well-formed, unique keys)
@@ -936,18 +1762,42 @@ pub fn run(ctx: &Ctx) {
                 }
             }
         }
+        // the alphabet tables: rows pairwise disjoint, no character with a meaning in the text formats
+        let bad = |ch: char| ch.is_ascii_digit() || ch == '.' || ch == '-' || ch.is_whitespace() || "\\{}%#$&^_~".contains(ch);
+        let rows: Vec<Vec<char>> = SLOTS.iter().map(|r| r.iter().flat_map(|&(a, b)| [a, b]).collect()).collect();
+        let rows8: Vec<Vec<char>> = SLOTS8.iter().map(|r| r.iter().flat_map(|&(a, b)| [a, b]).collect()).collect();
+        for table in [&rows, &rows8] {
+            for i in 0..table.len() {
+                for &ch in &table[i] {
+                    if bad(ch) || (0..i).any(|j| table[j].contains(&ch)) {
+                        eprintln!("C13: alphabet table: character {ch:?} of row {i} is unusable");
+                        std::process::exit(2);
+                    }
+                }
+            }
+        }
+        if rows8.iter().flatten().any(|&ch| ch as u32 > 255) {
+            eprintln!("C13: alphabet table out of range");
+            std::process::exit(2);
+        }
     }
 
     run_list(ctx, "golden", goldens(), |g: &Golden, case| golden_oracle(g, case));
 
-    let n = ctx.tier.pick(600_000u64, 5_000_000u64);
-    run_generated(ctx, "liang", n, || case_strategy(30), |c: &HCase, case| oracle(ctx, c, case, false));
+    let n = ctx.tier.pick(450_000u64, 5_000_000u64);
+    run_generated(ctx, "liang", n, || case_strategy(SHAPE_STD), |c: &HCase, case| oracle(ctx, c, case, false));
 
-    let n = ctx.tier.pick(40_000u64, 400_000u64);
+    let n = ctx.tier.pick(2_000u64, 60_000u64);
+    run_generated(ctx, "big_tables", n, || case_strategy(SHAPE_BIG), |c: &HCase, case| oracle(ctx, c, case, false));
+
+    let n = ctx.tier.pick(10_000u64, 100_000u64);
     run_generated(ctx, "nonletter_words", n, nonletter_strategy, |c: &HCase, case| oracle(ctx, c, case, true));
 
     let n = ctx.tier.pick(30_000u64, 400_000u64);
     run_generated(ctx, "plain_words", n, plain_word_strategy, |w: &String, case| plain_oracle(w, case));
+
+    let n = ctx.tier.pick(1_000u64, 40_000u64);
+    run_generated(ctx, "plain_overlay", n, overlay_strategy, |c: &HCase, case| oracle(ctx, c, case, false));
 
     // exhaustive: pattern multisets from the pool x all short words
     let arity = ctx.tier.pick(2usize, 3usize);
@@ -977,9 +1827,13 @@ pub fn run(ctx: &Ctx) {
             let pi = (r / excs.len() as u64) as usize;
             let p = Load::Patterns(POOL[pi].to_string());
             let e = Load::Exception(excs[ei].clone());
-            HCase { letters: abc_letters(), loads: if first { vec![e, p] } else { vec![p, e] }, word: words2[wi].clone() }
+            HCase { letters: abc_letters(), loads: if first { vec![e, p] } else { vec![p, e] }, word: words2[wi].clone(), requery: None }
         },
         |c: &HCase, case| oracle(ctx, c, case, false),
     );
     ctx.extra("pool_exceptions", "space", serde_json::json!(format!("{} pool patterns x {} hyphenated exceptions x 2 load orders x {} words", POOL.len(), excs.len(), words2.len())));
+
+    // LAST: the TeX primitives (reports the open defects of the anchored file; a failure stops the run)
+    let n = ctx.tier.pick(30_000u64, 600_000u64);
+    run_generated(ctx, "primitives", n, prim_strategy, |c: &PrimCase, case| prim_oracle(ctx, c, case));
 }
